@@ -111,10 +111,16 @@ func (p *proxy) call(ctx erpc.UnknownCallCtx) (interface{}, *erpc.Status) {
 		label.RealIP = goutil.BytesToString(realIPBytes)
 	}
 	label.ServiceMethod = ctx.ServiceMethod()
+	// the body is forwarded as bytes: tell the backend which codec they are in
+	settings = append(settings, erpc.WithBodyCodec(ctx.GetBodyCodec()))
 	callcmd := p.callForwarder(&label).Call(label.ServiceMethod, ctx.InputBodyBytes(), &result, settings...)
 	callcmd.InputMeta().VisitAll(func(key, value []byte) {
 		ctx.SetMeta(goutil.BytesToString(key), goutil.BytesToString(value))
 	})
+	if bodyCodec := callcmd.InputBodyCodec(); bodyCodec != 0 {
+		// and the caller which codec the backend's reply body is in
+		ctx.SetBodyCodec(bodyCodec)
+	}
 	stat := callcmd.Status()
 	if !stat.OK() && stat.Code() < 200 && stat.Code() > 99 {
 		stat.SetCode(erpc.CodeBadGateway)
@@ -139,6 +145,7 @@ func (p *proxy) push(ctx erpc.UnknownPushCtx) *erpc.Status {
 		label.RealIP = goutil.BytesToString(realIPBytes)
 	}
 	label.ServiceMethod = ctx.ServiceMethod()
+	settings = append(settings, erpc.WithBodyCodec(ctx.GetBodyCodec()))
 	stat := p.pushForwarder(&label).Push(label.ServiceMethod, ctx.InputBodyBytes(), settings...)
 	if !stat.OK() && stat.Code() < 200 && stat.Code() > 99 {
 		stat.SetCode(erpc.CodeBadGateway)
